@@ -23,6 +23,7 @@ func Run(m *mon.M) {
 	m.Require("path.stable", 10000)
 	m.Require("pairs.collinear", 300)
 	m.Require("bisector.float_ties_found", 2000)
+	m.Require("cross.nearly_antipodal_first_edge", 10000)
 	m.Stream("cross", m.N(250000, 20000000), crossCase)
 	m.Stream("collinear", m.N(20000, 1000000), collinearCase)
 	m.Stream("bisector", m.N(150000, 5000000), bisectorCase)
@@ -71,6 +72,16 @@ func crossCase(c *mon.Case) {
 	// crossings at / next to an endpoint
 	if r.Intn(6) == 0 {
 		la0 = gen.LogUniform(r, 1e-300, 1e-12)
+	}
+	// one case in eight: the first edge is nearly 180 degrees long and is crossed next to one of its endpoints
+	// (the sum of its endpoints is then a tiny vector dominated by rounding)
+	if r.Intn(8) == 0 {
+		delta := gen.LogUniform(r, 1e-12, 1e-3)
+		la0 = gen.LogUniform(r, 1e-16, 1e-3) * math.Min(1, delta*1e3)
+		if la1 = math.Pi - delta - la0; la1 <= 0 {
+			return
+		}
+		c.Count("cross.nearly_antipodal_first_edge", 1)
 	}
 	a0, a1 := mk(t1, -la0), mk(t1, la1)
 	b0, b1 := mk(t2, -lb0), mk(t2, lb1)
